@@ -286,7 +286,7 @@ func init() {
 		Technique: "property-based testing (rapid): differential between the Twig environment's automatic escaping and an explicit-escaping translation run on the core environment, plus an inert-language safety oracle",
 		Rule: "programs for twig.New over memory and string loaders: template names with extensions html, html.twig, js, js.twig, css, txt, none, .twig only, unknown (.xml, .tpl, .htm, dir.d/x) and inline sources with and without '.'; payloads with characters significant in HTML, JS, CSS and URLs carried by strings, Stringers and values marked safe for the same / another / several types (nested); prints at top level, in if/for bodies, blocks, overriding and inherited blocks of other content types, included and embedded templates, set captures, filter sections, macro bodies, conditional branches, interpolations, concatenations, array/hash elements, through raw, escape, escape(type) and neutral filters. " +
 			"Oracles: (E) the output equals that of the translated program in which every print is explicitly escaped for the defining template's content type as the statement prescribes (registered extension / txt -> none / otherwise html), raw and same-type safe values exempt, run on the core environment; (S) for programs of one content type, after removing the payloads deliberately routed through raw / same-type safe values the output lies in that type's inert language. " +
-			"Non-trivial: a payload contains a character special for the sink and the print is not at top level of an .html template; distinct by program and context. Context values also include types implementing Boolean and Stringer at once, Boolean only and Number only (also behind pointers); a foreign, reconfigured AutoEscapeExtension instance exists in the process.",
+			"Non-trivial: a payload contains a character special for the sink and the print is not at top level of an .html template; distinct by program and context. Context values also include types implementing Boolean and Stringer at once, Boolean only and Number only (also behind pointers); a foreign, reconfigured AutoEscapeExtension instance exists in the process; payloads of letters and digits beyond ASCII.",
 		Assumptions: []string{"the core executor and the escapers are checked by the other properties; this check decides selection of the escaper and the number of applications"},
 	}
 	type full struct {
